@@ -6,6 +6,7 @@ import (
 	"github.com/osrg/gobgp/v4/internal/pkg/table"
 	"github.com/osrg/gobgp/v4/pkg/config/oc"
 	"github.com/osrg/gobgp/v4/pkg/packet/bgp"
+	"github.com/osrg/gobgp/v4/pkg/packet/bmp"
 	"github.com/osrg/gobgp/v4/pkg/packet/mrt"
 )
 
@@ -116,4 +117,87 @@ func VH_c19_mrt_dump_table() {
 	vAssert(seen == len(want), "a Loc-RIB route is missing from the dump")
 	vAssert(len(peers) == 2, "the peer index table does not list each source exactly once")
 	vReach("end")
+}
+
+// C19 (the daemon's BMP records for sessions): bmpPeerUp / bmpPeerDown / bmpPeerRoute built from a
+// session event with symbolic peer AS, addresses (IPv4 or IPv6), identifier, ports, peer type and
+// pre/post-policy flag, serialised and parsed back: the same peer (address, AS, identifier, flags,
+// time), the same local end and OPENs, the down reason prescribed for the loss kind, the same UPDATE.
+func VH_c19_bmp_session_records() {
+	v6 := vBool("peer_is_ipv6")
+	peerAddr, localAddr := vAddr4(10, 0, vU8("peer_octet"), 2), vAddr4(10, 0, 0, 1)
+	if v6 {
+		peerAddr = netip.AddrFrom16([16]byte{0x20, 0x01, 0x0d, 0xb8, 14: vU8("peer_octet"), 15: 2})
+		localAddr = netip.AddrFrom16([16]byte{0x20, 0x01, 0x0d, 0xb8, 15: 1})
+	}
+	peerAS := vU32("peer_as")
+	peerID := vAddr4(2, 2, vU8("id_octet"), 2)
+	open := func(as uint16, id netip.Addr) *bgp.BGPMessage {
+		m, _ := bgp.NewBGPOpenMessage(as, 90, id, []bgp.OptionParameterInterface{bgp.NewOptionParameterCapability([]bgp.ParameterCapabilityInterface{bgp.NewCapMultiProtocol(bgp.RF_IPv4_UC)})})
+		return m
+	}
+	ev := &watchEventPeer{PeerAS: peerAS, LocalAS: 65000, PeerAddress: peerAddr, LocalAddress: localAddr, PeerPort: vU16("peer_port"), LocalPort: vU16("local_port"),
+		PeerID: peerID, SentOpen: open(65000, vAddr4(1, 1, 1, 1)), RecvOpen: open(uint16(peerAS), peerID), Timestamp: vTimeUnix(1700000000)}
+	ptype := uint8(vChoice("peer_type", 3)) // global, RD, local instance peer
+	policy := vBool("post_policy")
+	pd := vU64("peer_distinguisher")
+	back := func(m *bmp.BMPMessage) *bmp.BMPMessage {
+		raw, err := m.Serialize()
+		vAssert(err == nil, "a BMP record of the daemon cannot be serialised")
+		got, err := bmp.ParseBMPMessage(raw)
+		vAssert(err == nil && got != nil, "a BMP record the daemon wrote does not parse back")
+		vAssume(err == nil && got != nil) // reported above; nothing further to compare
+		return got
+	}
+	samePeer := func(h bmp.BMPPeerHeader) {
+		vAssert(h.PeerType == ptype && h.PeerDistinguisher == pd, "peer type / distinguisher changed")
+		vAssert(h.PeerAddress == peerAddr && h.PeerAS == peerAS && h.PeerBGPID == peerID, "the per-peer header does not parse back to the same peer (address, AS, identifier)")
+		vAssert((h.Flags&bmp.BMP_PEER_FLAG_IPV6 != 0) == v6, "the V flag does not follow the peer's address family")
+		vAssert((h.Flags&bmp.BMP_PEER_FLAG_POST_POLICY != 0) == policy, "the L flag does not follow pre/post-policy")
+		vAssert(h.Timestamp == 1700000000, "the event time changed")
+	}
+	switch vChoice("record", 3) {
+	case 0:
+		g := back(bmpPeerUp(ev, ptype, policy, pd))
+		samePeer(g.PeerHeader)
+		b, ok := g.Body.(*bmp.BMPPeerUpNotification)
+		vAssert(ok && b.LocalAddress == localAddr && b.LocalPort == ev.LocalPort && b.RemotePort == ev.PeerPort, "Peer Up does not parse back to the same local address and ports")
+		if ok {
+			so, ro := b.SentOpenMsg.Body.(*bgp.BGPOpen), b.ReceivedOpenMsg.Body.(*bgp.BGPOpen)
+			vAssert(so.MyAS == 65000 && so.ID == vAddr4(1, 1, 1, 1) && ro.MyAS == uint16(peerAS) && ro.ID == peerID, "Peer Up does not carry the sent OPEN first and the received OPEN second")
+		}
+		vReach("peer_up")
+	case 1:
+		kinds := []fsmStateReasonType{fsmNotificationSent, fsmHoldTimerExpired, fsmAdminDown, fsmNotificationRecv, fsmReadFailed, fsmDeConfigured}
+		wantCode := []uint8{1, 1, 2, 3, 4, 5}
+		k := vChoice("loss", len(kinds))
+		var n *bgp.BGPMessage
+		if wantCode[k] == 1 || wantCode[k] == 3 {
+			n = bgp.NewBGPNotificationMessage(vU8("code"), vU8("subcode"), nil)
+		}
+		ev.StateReason = newfsmStateReason(kinds[k], n, nil)
+		g := back(bmpPeerDown(ev, ptype, policy, pd))
+		samePeer(g.PeerHeader)
+		b, ok := g.Body.(*bmp.BMPPeerDownNotification)
+		vAssert(ok && b.Reason == wantCode[k], "Peer Down does not carry the reason RFC 7854 prescribes for the kind of loss")
+		if ok && n != nil {
+			vAssert(b.BGPNotification != nil && b.BGPNotification.Body.(*bgp.BGPNotification).ErrorCode == n.Body.(*bgp.BGPNotification).ErrorCode &&
+				b.BGPNotification.Body.(*bgp.BGPNotification).ErrorSubcode == n.Body.(*bgp.BGPNotification).ErrorSubcode, "Peer Down does not carry the NOTIFICATION that ended the session")
+		}
+		vReach("peer_down")
+	default:
+		u := vUpdate4(vPrefix4(10, vU8("prefix_octet"), 0, 0, 16), false, []uint32{peerAS}, vAddr4(10, 0, 0, 2))
+		payload, _ := u.Serialize()
+		four := vBool("four_octet_as")
+		info := &table.PeerInfo{AS: peerAS, ID: peerID, Address: peerAddr}
+		g := back(bmpPeerRoute(ptype, policy, pd, four, info, 1700000000, payload))
+		samePeer(g.PeerHeader)
+		vAssert((g.PeerHeader.Flags&bmp.BMP_PEER_FLAG_TWO_AS != 0) == !four, "the A flag does not follow the AS_PATH width of the session")
+		b, ok := g.Body.(*bmp.BMPRouteMonitoring)
+		vAssert(ok, "a route monitoring record parses back as something else")
+		if ok && four {
+			vAssert(b.BGPUpdate != nil && len(b.BGPUpdate.Body.(*bgp.BGPUpdate).NLRI) == 1 && b.BGPUpdate.Body.(*bgp.BGPUpdate).NLRI[0].NLRI.(*bgp.IPAddrPrefix).Prefix == u.Body.(*bgp.BGPUpdate).NLRI[0].NLRI.(*bgp.IPAddrPrefix).Prefix, "route monitoring does not parse back to the same route")
+		}
+		vReach("route")
+	}
 }
